@@ -310,7 +310,9 @@ impl ConsumeUnverifiedBlockProcessor {
             &epoch.last_block_hash_in_previous_epoch(),
         )?;
         if new_epoch {
-            db_txn.insert_epoch_ext(&epoch.last_block_hash_in_previous_epoch(), &epoch)?;
+            // the record only: which epoch a number designates is decided by the main
+            // chain (attach_block), not by whichever branch was verified last
+            db_txn.insert_epoch_ext_record(&epoch.last_block_hash_in_previous_epoch(), &epoch)?;
         }
 
         let in_ibd = self.shared.is_initial_block_download();
